@@ -48,23 +48,27 @@ func loadKnown() {
 
 // IsKnownOpen reports whether (property, key) is listed as an open finding.
 // A listed key matches exactly, or as a prefix when it ends in "*".
-func IsKnownOpen(property, key string) bool {
+func IsKnownOpen(property, key string) bool { return MatchKnownOpen(property, key) != "" }
+
+// MatchKnownOpen returns the listed key (pattern) of the open finding that
+// matches (property, key), or "".
+func MatchKnownOpen(property, key string) string {
 	loadKnown()
 	for _, f := range known {
 		if f.Status != "open" || f.Property != property {
 			continue
 		}
 		if f.Key == key {
-			return true
+			return f.Key
 		}
 		if strings.HasSuffix(f.Key, "*") && strings.HasPrefix(key, strings.TrimSuffix(f.Key, "*")) {
-			return true
+			return f.Key
 		}
 		if strings.HasPrefix(f.Key, "*") && strings.HasSuffix(key, strings.TrimPrefix(f.Key, "*")) {
-			return true
+			return f.Key
 		}
 	}
-	return false
+	return ""
 }
 
 // OpenFindings lists the open findings of a property.
